@@ -93,6 +93,8 @@ pub fn build_sweep(tier: Tier) -> Vec<IoRun> {
                 via_convert: i % 2 == 1,
                 pad_to: None,
                 rlimit,
+                litter: Vec::new(),
+                crash_at: None,
             }],
         });
     };
@@ -232,6 +234,47 @@ pub fn build_sweep(tier: Tier) -> Vec<IoRun> {
             push(&w, scratch(), Pre::Longer(17), PlanSpec::default(), Some(l), &mut runs);
         }
         push(&w, Target::Relative("rel.out".into()), Pre::Absent, PlanSpec::default(), None, &mut runs);
+        // debris next to the target: every name pattern, as a longer file, a short file and a directory
+        let mk = |w: &Workload, plan: PlanSpec, litter: Vec<Litter>, crash_at: Option<u32>| IoOp {
+            kind: w.kind,
+            qr: w.qr.clone(),
+            setters: w.setters.clone(),
+            target: scratch(),
+            pre: Pre::Absent,
+            plan,
+            via_convert: false,
+            pad_to: None,
+            rlimit: None,
+            litter,
+            crash_at,
+        };
+        let mut push_ops = |ops: Vec<IoOp>, runs: &mut Vec<IoRun>| {
+            let i = runs.len() as u64;
+            runs.push(IoRun { index: SWEEP_BASE + i, seed: i, class: "sweep".into(), ops });
+        };
+        for name in LITTER_NAMES {
+            for (longer_by, is_dir) in [(Some(1000usize), false), (None, false), (None, true)] {
+                let l = Litter { name: name.to_string(), longer_by, is_dir };
+                push_ops(vec![mk(&w, PlanSpec::default(), vec![l.clone()], None)], &mut runs);
+                if longer_by.is_some() {
+                    push_ops(
+                        vec![mk(&w, PlanSpec { disk_full: Some(Pos::Permille(500)), ..Default::default() }, vec![l], None)],
+                        &mut runs,
+                    );
+                }
+            }
+        }
+        // crash and restart: the writer dies right before each of its system calls (plain and
+        // dribbling device); afterwards a clean - smaller or equal - export goes to the same path
+        let small = Workload { kind: w.kind, qr: QrCfg::new(b"https://example.com/".to_vec()), setters: vec![] };
+        for chunk in [None, Some(ChunkSpec::Parts(3))] {
+            let last = if chunk.is_some() { 6 } else { 4 };
+            for k in 0..=last {
+                let dying = mk(&w, PlanSpec { chunk: chunk.clone(), ..Default::default() }, vec![], Some(k));
+                push_ops(vec![dying.clone(), mk(&small, PlanSpec::default(), vec![], None)], &mut runs);
+                push_ops(vec![dying, mk(&w, PlanSpec::default(), vec![], None)], &mut runs);
+            }
+        }
     }
     runs
 }
